@@ -2,7 +2,8 @@
    the operations of Model/NodeRxDefs.v (rop / rstep / rrun) to the extended operations of Model/ApiDefs.v (xop / xstep / xrun), i.e. to
    histories in which the application also calls SendIsoAddressClaim, SendProductInformation, SendConfigurationInformation,
    SendTxPGNList, SendRxPGNList, SendHeartbeat(bool), SendHeartbeat(int), SetDeviceInformationInstances, SetDeviceInformation, Restart,
-   SetMode and Set/Extend SingleFrame/FastPacket Messages at any time.
+   SetMode, Set/Extend SingleFrame/FastPacket Messages, ExtendTransmitMessages, ExtendReceiveMessages, SetHandleOnlyKnownMessages and
+   SetProductInformation at any time.
 
    Everything is stated with the notions of Spec/SafeSpec.v (WF, quiet, ev_ok, gf_ok, op_ok, dev_ok, ...); new here is only the
    well-formedness of one public call, [api_ok]: every argument lies in the range of its C type.  DEVICE INDICES ARE UNCONSTRAINED
@@ -14,8 +15,9 @@
    addresses wrap; the C++ keeps that in a uint8_t, the model stores the number as it is, so with more than 257 devices the model's
    device 257 would get the "address" 256 and dev_ok (a fact of WF) would fail ([api_node_safe_unbounded_refuted_stmt], a witness with
    258 devices; r_oob stays false there too).  Histories without SetMode need no bound - hence the disjunction in the statements.
-   The invariant does not depend on anything else a call changes: the mode (SetMode), the PGN lists (n_pgn, Set...Messages) and the
-   NAMEs (SetDeviceInformation, SetDeviceInformationInstances) do not occur in WF / quiet. *)
+   The invariant does not depend on anything else a call changes: the mode (SetMode), the PGN lists (n_pgn, Set...Messages; d_tx,
+   ExtendTransmitMessages; x_rx, ExtendReceiveMessages), the NAMEs (SetDeviceInformation, SetDeviceInformationInstances) and the
+   configuration r_cfg (SetHandleOnlyKnownMessages, SetProductInformation) do not occur in WF / quiet. *)
 From Coq Require Import ZArith List Bool.
 From N2kV Require Import Base.ListAux Model.CanId Model.Sched Model.PgnClass Model.NodeDefs Model.NodeRxDefs Model.GroupFnDefs Model.ApiDefs
   Gen.GenTables Gen.GenConsts Spec.SendSpec Spec.SafeSpec.
@@ -39,6 +41,12 @@ Definition api_ok (a:api) : Prop :=
   | ARestart => True
   | ASetMode mode src => 0 <= mode <= 4 /\ u8_ok src                         (* tN2kMode, uint8_t *)
   | ASetPgnList which l => 0 <= which <= 3 /\ Forall (fun p => 0 <= p < 2^32) l   (* one of the four setters; const unsigned long * *)
+  | ASetTxList idev l => Forall (fun p => 0 <= p < 2^32) l                   (* const unsigned long *, int iDev *)
+  | ASetRxList idev l => Forall (fun p => 0 <= p < 2^32) l
+  | ASetOnlyKnown b => True                                                  (* bool *)
+  | ASetProductInformation serial code model sw ver load version cert =>     (* const char * x 4 (the characters up to the terminator), *)
+      Forall byte_ok serial /\ Forall byte_ok model /\ Forall byte_ok sw /\ Forall byte_ok ver /\   (* unsigned short code / version, *)
+      0 <= code <= 65535 /\ u8_ok load /\ 0 <= version <= 65535 /\ u8_ok cert     (* unsigned char load / certification level *)
   end.
 Definition xop_ok (o:xop) : Prop :=
   match o with
